@@ -373,10 +373,11 @@ def runSteps (fuel : Nat) (prog : Expr) : St → Cur → List Step → Except Fa
 /-- One traversal `src[…]…[…].value` starting from store `st`; returns the store for the next. -/
 def implTraverse (fuel : Nat) (prog : Expr) (st : St) (path : List Step) : Outcome × St :=
   match runSteps fuel prog st .root path with
-  | (.error e, st1) => (.fail e, st1)
-  | (.ok .root, st1) => (.fail .notIdent, st1)
+  | (.error e, st1) => (.nav e, st1)
+  | (.ok .root, st1) => (.nav .notIdent, st1)
   | (.ok (.at e), st1) =>
     match valueOfWith (resolveId fuel) st1 e with
+    | (.err .notIdent, st2) => (.nav .notIdent, st2)
     | (.err f, st2) => (.fail f, st2)
     | (.ok v _, st2) => (.bound (nodeId v), st2)
 
